@@ -116,3 +116,30 @@ func init() {
 		Outside: []string{"lengths above the tier bound; the 32-bit accumulator can wrap from 65537 words on (far beyond any Ethernet frame)"},
 	})
 }
+
+func init() {
+	getters := []string{"VerifC02GetIP4", "VerifC02GetIP6", "VerifC02GetUDP", "VerifC02GetTCP", "VerifC02GetARP", "VerifC02GetICMP", "VerifC02GetDNS", "VerifC02GetDHCP4"}
+	register(&Prop{
+		ID:        "C02",
+		Technique: "differential symbolic execution: real Parse / getters vs an RFC reference decoder executed side by side, equality asserted by SMT on every path",
+		Jobs: func(tier string) []Job {
+			jobs := []Job{{Pkg: "root", Func: "VerifC02Parse", SplitN: 7, Cfg: cfg(64, 900), Reach: []string{"parsed"}}}
+			for _, g := range getters {
+				jobs = append(jobs, Job{Pkg: "root", Func: g, Cfg: cfg(64, 600), Reach: []string{"valid"}})
+			}
+			return jobs
+		},
+		Bounds: func(tier string) map[string]string {
+			return map[string]string{
+				"Session.Parse vs reference": "all byte strings of length 0..1536, all capacities, all contents (every EtherType, IP protocol, port pair, length field); symbolic host/router MAC; empty tables",
+				"getters":                    "IP4 (15), IP6 (10), UDP (6), TCP (18), ARP (9), ICMP/ICMPEcho (9), DNS header (13), DHCP4 fixed fields (13, view length 0..244): view length 0..1536, all contents, IsValid()==nil assumed",
+			}
+		},
+		Assumptions: []string{
+			"the reference decoder (harness/root/c02_ref.go) is written from RFC 791/8200/768/9293/826/792/4443 and the documented EtherType / protocol / UDP-port precedence table; view and payload lengths run to the end of the frame (library documentation), trailing padding is not required to be trimmed",
+			"IPv4 consistency demanded by the reference: IHL>=20, TotalLen>=IHL, frame covers TotalLen; IPv6: PayloadLen+40 == remaining length (library's documented strict rule)",
+			"stubs as in C01",
+		},
+		Outside: []string{"VLAN decapsulation and IPv6 extension-header chains (not in the documented table)", "getters of NDP/option views (C14 decodes RA options differentially)", "frames > 1536 bytes"},
+	})
+}
